@@ -336,6 +336,11 @@ func Run(r *ev.Run) {
 				l := zapcore.Level(lv)
 				for k, fe := range []frontEnd{fes[0], fes[1+(lv+128+i)%(len(fes)-1)]} {
 					msg := fmt.Sprintf("m-%d-%d-%s-%d", i, lv, tag, k)
+					if hasDrop {
+						// the same messages in every round: what a dropping sampler counted (or must not have
+						// counted, while its core had the level disabled) in an earlier round decides this one
+						msg = fmt.Sprintf("m-%d-%d-all-%d", i, lv, k)
+					}
 					for _, lf := range env.Leaves {
 						lf.Reset()
 					}
